@@ -86,7 +86,7 @@ func HarnessLogout() {
 	vrtNominalSigAlg = true
 	// history: nothing | the logout of another service provider (which has a SingleLogoutService)
 	hist := 0
-	if (vrtProp("C02") || vrtProp("C13") || vrtProp("C15")) && vrtBool("hist.logout") {
+	if (vrtProp("C02") || vrtProp("C13") || vrtProp("C15")) && !vrtBool("hist.none") {
 		hist = 3
 	}
 	p := vrtNewProviderWith(st, false)
